@@ -8,9 +8,28 @@ from lcmsa import registry  # noqa: E402
 NOT_APPLICABLE = {
     "C09": "check under construction (R7 order taint / R8 effects); see DESIGN.md section 4",
 }
-TECH = {
-    "default": "static analysis: symbolic term extraction from the AST + rule-specific abstract domains",
-}
+PHRASES = [
+    ("R2.", "exhaustive boolean-formula algebra over variable classes (pandas query strings located by data flow)"),
+    ("R3.", "period-offset abstract domain on per-period lists"),
+    ("KER.", "normal-form agreement of kernels/wrappers with reviewed reference forms (sibling cross-check)"),
+    ("R13.", "polynomial normal form of the Bellman expression and masked reductions"),
+    ("R14.", "solver/simulator twin comparison"),
+    ("R15.", "def-use obligations on the simulator loop's value graph"),
+    ("R6.", "PRNG-key typestate"),
+    ("R5.", "product-layout (repeat/tile/mask) rules"),
+    ("R4.", "row-domain taint"),
+    ("R7.", "order-provenance (hash/alphabetical) taint"),
+    ("R8.", "effect and alias (freshness) analysis with a positive-control fixture"),
+    ("R1.", "import/attribute resolution against the installed sources"),
+    ("R10.", "call-arity and signature-discipline checks"),
+    ("R11.", "keyword-family algebra over usage classes"),
+    ("R12.", "guard constant-folding on finite witness sets + partial-operation domain check"),
+]
+
+
+def technique_of(rules):
+    parts = [ph for pre, ph in PHRASES if any(r.startswith(pre) for r in rules)]
+    return "static analysis on an AST-derived gated-SSA value graph (no execution, no solver): " + "; ".join(parts)
 m = {
     "version": 1,
     "setup_cmd": "/venv/bin/python -m compileall -q /verif/lcmsa",
@@ -25,7 +44,7 @@ m = {
         "name": "lcmsa",
         "path": "/verif/lcmsa",
         "serves_properties": sorted(registry.PROPERTIES),
-        "kind_free_text": "repository-specific static analyser (pure Python, stdlib ast): symbolic term builder with "
+        "kind_free_text": "repository-specific static analyser (pure Python, stdlib ast): value-graph (term) builder with "
                           "reaching definitions, query-formula algebra over variable classes, period-offset domain, "
                           "polynomial/operation normal forms, agreement with reviewed reference forms",
     }],
@@ -54,7 +73,7 @@ for pid in sorted(registry.PROPERTIES):
         "level_note": "Trusted: CPython ast; summaries of jax/dags/pandas semantics; the analyser's term builder and "
                       "normaliser; reference forms reviewed by hand. Decides code structure, not numerical results; "
                       "clauses not decided are listed in DESIGN.md section 4.",
-        "technique": spec.get("technique", "static analysis: AST-derived symbolic terms; " + ", ".join(rules)),
+        "technique": spec.get("technique", technique_of(rules)),
     })
 for pid, why in NOT_APPLICABLE.items():
     if pid not in registry.PROPERTIES:
